@@ -727,6 +727,7 @@ func (e *Engine) frameCheck(st *State, fr *Frame, vars map[string]specVal) {
 		ref  Term
 		idx  Term
 		whole bool
+		elem  bool // whole: only element idx of the object
 		path []Term
 	}
 	var cells []cell
@@ -741,7 +742,11 @@ func (e *Engine) frameCheck(st *State, fr *Frame, vars map[string]specVal) {
 					et := v.t.Underlying().(*types.Slice).Elem()
 					cells = append(cells, cell{name: "A!" + heapTypeName(et) + "!", ref: x.Arr, whole: true})
 				case VPtr:
-					cells = append(cells, cell{name: "A!" + heapTypeName(x.Root) + "!", ref: x.Ref, whole: true})
+					if x.ArrLen < 0 && len(x.Path) == 0 {
+						cells = append(cells, cell{name: "A!" + heapTypeName(x.Root) + "!", ref: x.Ref, idx: x.Idx, whole: true, elem: true})
+					} else {
+						cells = append(cells, cell{name: "A!" + heapTypeName(x.Root) + "!", ref: x.Ref, whole: true})
+					}
 				case Term:
 					if mt, ok := v.t.Underlying().(*types.Map); ok {
 						cells = append(cells, cell{name: "M!" + heapTypeName(mt.Key()) + "!" + heapTypeName(mt.Elem()) + "!", ref: x, whole: true})
@@ -773,7 +778,11 @@ func (e *Engine) frameCheck(st *State, fr *Frame, vars map[string]specVal) {
 		for _, c := range cells {
 			if c.whole {
 				if strings.HasPrefix(name, c.name) {
-					allowed = Store(allowed, c.ref, Select(cur, c.ref))
+					if c.elem {
+						allowed = Store(allowed, c.ref, Store(Select(allowed, c.ref), c.idx, Select(Select(cur, c.ref), c.idx)))
+					} else {
+						allowed = Store(allowed, c.ref, Select(cur, c.ref))
+					}
 				}
 				continue
 			}
